@@ -4,7 +4,7 @@ CONSTANTS
   Part = "value"
   L = 3
   Cut = 6
-  Stride = 2
+  Stride = 3
 INVARIANT LawOutDomain
 INVARIANT LawSame
 INVARIANT LawPreserving
@@ -13,6 +13,8 @@ INVARIANT LawToleranceMonotone
 INVARIANT LawBoxes
 INVARIANT LawStudentFault
 INVARIANT LawAuthorFault
+INVARIANT LawInexactSubmission
+INVARIANT LawInexactAuthor
 INVARIANT LawNeverBothVerdictAndError
 INVARIANT LawIndexSymmetric
 INVARIANT LawIndexCount
